@@ -216,3 +216,184 @@ Print Assumptions C14_asref_delegates.
 Theorem C14_token_equality : forall (a b : ty), ty_eqb a b = true <-> a = b.
 Proof. exact Proofs.ty_eqb_spec. Qed.
 Print Assumptions C14_token_equality.
+
+(* ================================================================================================ *)
+(* Growth round                                                                                       *)
+From Coq Require Import Permutation.
+
+(* "operate on exactly the one field": all impls of a State-based derive share ONE field; one impl, or one per
+   requested reference kind for IntoIterator. *)
+Theorem C14_unique_field : forall (d : dkind) (sattrs : list attr) (fields : list (ty * list attr)) (ims : list impl),
+  derive_state d sattrs fields = inr ims ->
+  exists i info, select (allowed_of d) sattrs (map snd fields) = inr (i, info)
+    /\ (forall im, In im ims -> im_field im = i)
+    /\ (d <> DIntoIter -> length ims = 1)
+    /\ (d = DIntoIter -> map im_self ims = ref_types info).
+Proof. exact Proofs.derive_state_unique_field. Qed.
+Print Assumptions C14_unique_field.
+
+(* enums and unions never get an impl (a diagnostic, whatever their attributes) *)
+Theorem C14_non_struct_rejected : forall (d : dkind) (sg : sgenerics) (it : item),
+  (forall s f, it <> IStruct s f) -> exists e, derive_state_item d sg it = inl e.
+Proof. exact Proofs.non_struct_rejected. Qed.
+Print Assumptions C14_non_struct_rejected.
+
+Theorem C14_non_struct_rejected_as : forall (sg : sgenerics) (m : bool) (it : item_as),
+  (forall s f, it <> AStruct s f) -> derive_as_item sg m it = inl DSyn.
+Proof. exact Proofs.non_struct_rejected_as. Qed.
+Print Assumptions C14_non_struct_rejected_as.
+
+(* the header-carrying derives are refinements of the plain ones (all earlier theorems transfer) *)
+Theorem C14_headers_refine_state : forall (d : dkind) (sg : sgenerics) (sattrs : list attr) (fields : list (ty * list attr)),
+  derive_state d sattrs fields
+  = match derive_state_h d sg sattrs fields with inl e => inl e | inr l => inr (map fst l) end.
+Proof. exact Proofs.derive_state_h_refines. Qed.
+Print Assumptions C14_headers_refine_state.
+
+Theorem C14_headers_refine_as : forall (sg : sgenerics) (m : bool) (sattrs : list sattr_as) (fields : list (ty * list fattr_as)),
+  derive_as (generics_of sg) m sattrs fields
+  = match derive_as_h sg m sattrs fields with inl e => inl e | inr l => inr (map fst l) end.
+Proof. exact Proofs.derive_as_h_refines. Qed.
+Print Assumptions C14_headers_refine_as.
+
+(* body shape and where-clause: the added predicates are EXACTLY the forwarded calls of the body (a direct
+   `&self.f` body adds none), and the struct's own predicates are all kept, in order *)
+Theorem C14_where_backs_calls_state : forall (d : dkind) (sg : sgenerics) (info : full_info) (i : nat) (fty : ty)
+                                             (im : impl) (h : header),
+  In (im, h) (state_himpls d sg info i fty) ->
+  bounds_of (h_where h) = calls (im_body im) /\ origs_of (h_where h) = sg_where sg.
+Proof. exact Proofs.state_header_where. Qed.
+Print Assumptions C14_where_backs_calls_state.
+
+(* AsRef/AsMut: Forwarded has its `FieldTy: AsRef<R>` predicate; Direct and Specialized have none (whether
+   the specialised call type-checks at an instantiation is rustc's: left to the run-time oracle) *)
+Theorem C14_where_backs_calls_as : forall (sg : sgenerics) (m : bool) (i : nat) (fty : ty) (t : target),
+  let '(im, h) := as_himpl sg m i fty t in
+  bounds_of (h_where h) = calls (im_body im) /\ origs_of (h_where h) = sg_where sg.
+Proof. exact Proofs.as_header_where. Qed.
+Print Assumptions C14_where_backs_calls_as.
+
+(* generic parameters of the impl: the struct's own (regrouped, lifetimes printed first) plus exactly the
+   documented extra: `__IdxT`, `'__deriveMoreLifetime` for the reference forms, `__AsT: ?Sized` for `forward` *)
+Theorem C14_params_state : forall (d : dkind) (sg : sgenerics) (info : full_info) (i : nat) (fty : ty) (im : impl) (h : header),
+  In (im, h) (state_himpls d sg info i fty) ->
+  Permutation (h_params h) (extra_params_state d (im_self im) ++ orig_params sg).
+Proof. exact Proofs.state_header_params. Qed.
+Print Assumptions C14_params_state.
+
+Theorem C14_params_as : forall (sg : sgenerics) (m : bool) (i : nat) (fty : ty) (t : target),
+  Permutation (h_params (snd (as_himpl sg m i fty t)))
+              (extra_params_as (as_kind_of (generics_of sg) fty t) t ++ orig_params sg).
+Proof. exact Proofs.as_header_params. Qed.
+Print Assumptions C14_params_as.
+
+(* ImplKind as a total decision on (blanket?, field type, listed type, GenericsSearch) *)
+Theorem C14_impl_kind_spec : forall (g : generics) (b : bool) (f r : ty),
+  (as_impl_kind g b f r = Direct <-> b = false /\ f = r)
+  /\ (as_impl_kind g b f r = Forwarded <-> b = true \/ (f <> r /\ (any_in g f = true \/ any_in g r = true)))
+  /\ (as_impl_kind g b f r = Specialized <-> b = false /\ f <> r /\ any_in g f = false /\ any_in g r = false).
+Proof. exact Proofs.impl_kind_spec. Qed.
+Print Assumptions C14_impl_kind_spec.
+
+(* order independence: the impl (kind, body, header) generated for a listed type is a function of that type
+   alone - in any other list containing it the same impl appears; permuting a list permutes the impls *)
+Theorem C14_kind_order_independent : forall (sg : sgenerics) (m : bool) (i : nat) (fty : ty) (l1 l2 : list ty) (t : ty) (hi : himpl),
+  In hi (map (as_himpl sg m i fty) (as_targets (Some (CTypes l1)) fty)) ->
+  im_trait (fst hi) = TrAs m (TgTy t) ->
+  In t l2 ->
+  hi = as_himpl sg m i fty (TgTy t)
+  /\ In hi (map (as_himpl sg m i fty) (as_targets (Some (CTypes l2)) fty)).
+Proof. exact Proofs.kind_order_independent. Qed.
+Print Assumptions C14_kind_order_independent.
+
+Theorem C14_kind_order_independent_perm : forall (sg : sgenerics) (m : bool) (i : nat) (fty : ty) (l1 l2 : list ty),
+  Permutation l1 l2 ->
+  Permutation (map (as_himpl sg m i fty) (as_targets (Some (CTypes l1)) fty))
+              (map (as_himpl sg m i fty) (as_targets (Some (CTypes l2)) fty)).
+Proof. exact Proofs.kind_order_independent_perm. Qed.
+Print Assumptions C14_kind_order_independent_perm.
+
+(* listed types spread over several attributes are one list (field level, any position; struct level) *)
+Theorem C14_split_field_attrs : forall (sg : sgenerics) (m : bool) (sattrs : list sattr_as)
+                                       (pre post : list (ty * list fattr_as)) (t : ty) (l : list ty) (ls : list (list ty)),
+  derive_as_h sg m sattrs (pre ++ (t, map FTypes (l :: ls)) :: post)
+  = derive_as_h sg m sattrs (pre ++ (t, [FTypes (l ++ concat ls)]) :: post).
+Proof. exact Proofs.split_field_attrs. Qed.
+Print Assumptions C14_split_field_attrs.
+
+Theorem C14_split_struct_attrs : forall (sg : sgenerics) (m : bool) (fields : list (ty * list fattr_as))
+                                        (l : list ty) (ls : list (list ty)),
+  derive_as_h sg m (map STypes (l :: ls)) fields = derive_as_h sg m [STypes (l ++ concat ls)] fields.
+Proof. exact Proofs.split_struct_attrs. Qed.
+Print Assumptions C14_split_struct_attrs.
+
+(* GenericsSearch (types, consts, lifetimes, `T::Assoc`): nothing is generic without parameters; monotone in
+   the parameter sets; the shapes it reacts to *)
+Theorem C14_any_in_no_generics : forall (t : ty) (h : bool), any_in' no_generics h t = false.
+Proof. exact Proofs.any_in'_no_generics. Qed.
+Print Assumptions C14_any_in_no_generics.
+
+Theorem C14_any_in_mono : forall (g g' : generics),
+  sub_mem (g_types g) (g_types g') -> sub_mem (g_lifetimes g) (g_lifetimes g') -> sub_mem (g_consts g) (g_consts g') ->
+  forall t h, any_in' g h t = true -> any_in' g' h t = true.
+Proof. exact Proofs.any_in'_mono. Qed.
+Print Assumptions C14_any_in_mono.
+
+Theorem C14_any_in_shapes : forall (g : generics),
+  (forall n, any_in g (TId n) = memN n (g_types g) || memN n (g_consts g))
+  /\ (forall s r, any_in g (TQual (s :: r)) = memN s (g_types g))
+  /\ (forall f a, any_in g (TApp f a) = any_in' g true f || any_in g a)
+  /\ (forall l m t, any_in g (TRef (Some l) m t) = memN l (g_lifetimes g) || any_in g t)
+  /\ (forall m t, any_in g (TRef None m t) = any_in g t)
+  /\ (forall t c, any_in g (TArray t (LenId c)) = any_in g t || memN c (g_consts g))
+  /\ (forall n, any_in' g true (TId n) = false).
+Proof. exact Proofs.any_in_shapes. Qed.
+Print Assumptions C14_any_in_shapes.
+
+(* full-strength identity for structs without generic parameters: ANY listed type that is the field's type for
+   rustc (alias, parenthesised, qualified ...) yields the field itself; and no impl is Forwarded unless `forward` *)
+Theorem C14_no_generics_identity : forall (A : Type) (field_impl : trait -> refkind -> ty -> arg -> bool -> A)
+                                          (norm : ty -> ty) (w : list N) (m : bool) (i : nat) (fty rty : ty),
+  ty_eqb (norm fty) (norm rty) = true ->
+  eval A field_impl norm (im_body (fst (as_himpl {| sg_params := []; sg_where := w |} m i fty (TgTy rty))))
+  = Some (RArg (AAddr m i)).
+Proof. exact Proofs.no_generics_identity. Qed.
+Print Assumptions C14_no_generics_identity.
+
+Theorem C14_no_generics_never_forwarded : forall (fty rty : ty), as_impl_kind no_generics false fty rty <> Forwarded.
+Proof. exact Proofs.no_generics_never_forwarded. Qed.
+Print Assumptions C14_no_generics_never_forwarded.
+
+(* AsMut: writes through the identity form are visible in the selected field and nowhere else *)
+Theorem C14_asmut_writes_through : forall (A : Type) (field_impl : trait -> refkind -> ty -> arg -> bool -> A)
+                                          (norm : ty -> ty) (V : Type) (g : generics) (i : nat) (fty : ty) (t : target)
+                                          (st : list V) (v : V),
+  identity_cond norm g fty t = true -> i < length st ->
+  exists st', write A V st (eval A field_impl norm (im_body (as_impl g true i fty t))) v = Some st'
+              /\ nth_error st' i = Some v
+              /\ (forall j, j <> i -> nth_error st' j = nth_error st j)
+              /\ read A V st' (eval A field_impl norm (im_body (as_impl g false i fty t))) = Some v.
+Proof. exact Proofs.asmut_writes_through. Qed.
+Print Assumptions C14_asmut_writes_through.
+
+(* IntoIterator: which forms exist, read off the field's and the struct's attribute (MetaInfo::into_full):
+   `ref` / `ref_mut` iff requested; `owned` iff requested or the (code's) default, which is characterised below *)
+Theorem C14_iter_forms_of_attrs : forall (sattrs : list attr) (fattrs : list (list attr)) (i : nat) (info : full_info) (fa : list attr),
+  select allowed_iter sattrs fattrs = inr (i, info) ->
+  nth_error fattrs i = Some fa ->
+  exists metas, collect_metas allowed_iter fattrs = inr metas
+    /\ fi_ref info = lists PRef fa || lists PRef sattrs
+    /\ fi_ref_mut info = lists PRefMut fa || lists PRefMut sattrs
+    /\ fi_owned info = lists POwned fa || lists POwned sattrs || default_owned metas.
+Proof. exact Proofs.iter_forms_of_attrs. Qed.
+Print Assumptions C14_iter_forms_of_attrs.
+
+Theorem C14_default_owned_spec : forall (allowed : list akind) (fattrs : list (list attr)) (metas : list meta_info),
+  collect_metas allowed fattrs = inr metas ->
+  default_owned metas
+  = match find (fun a => negb (is_nil a)) fattrs with
+    | None => true
+    | Some a => (negb (lists POwned a) && negb (lists PRef a)) || negb (lists PRefMut a)
+    end.
+Proof. exact Proofs.default_owned_spec. Qed.
+Print Assumptions C14_default_owned_spec.
